@@ -111,7 +111,9 @@ def entry_points(rng):
         if all(d['kind'] in ('P', 'H') for d in case['subs']):
             case['subs'][0].update(kind='G', n_het=None)      # some continuous randomness is needed for the comparisons
             S = [Sub(**d) for d in case['subs']]
-            case['theta'] = [0.5 + 0.125 * k for k in range(sum(s.n_par() for s in S))]
+            case['theta'] = []
+            for s in S:          # population parameters around 1, small covariate coefficients (sigma stays positive)
+                case['theta'] += [1.0 + 0.125 * k for k in range(s.n_pop())] + [0.03125] * (len(s.selection()) * s.n_cov())
         eps.append(('PopulationModel %s' % '+'.join(Sub(**d).describe() for d in case['subs']),
                     lambda case=case: (lambda seed: c06.pop_sample(case, seed=seed)),
                     not any(d['kind'] == 'TG' and not d.get('cov') for d in case['subs']) or case['composed']))
